@@ -396,11 +396,11 @@ func init() {
 			Each: eachExhaustive, Check: check,
 		},
 		vf.Sub[Case]{
-			Name: "random-small", Quick: 12000, Thorough: 150000, Gen: genSmall, Check: check, Floor: 0.15,
+			Name: "random-small", Quick: 12000, Thorough: 90000, Gen: genSmall, Check: check, Floor: 0.15,
 			Rule: "n in 1..10, 0..40 clauses of length 0..5 with duplicate literals, tautologies, units, empty clauses, unused declared variables; entry ParseSlice|ParseSliceNb|ParseCNF x certificate on/off x learned-clause limit {default,1..8,n+1,n+4,2n+1}; truth-table oracle; non-trivial = not decided at parse time and >=1 decision",
 		},
 		vf.Sub[Case]{
-			Name: "propagation-chains", Quick: 8000, Thorough: 100000, Gen: genChain, Check: check, Floor: 0.4,
+			Name: "propagation-chains", Quick: 8000, Thorough: 60000, Gen: genChain, Check: check, Floor: 0.4,
 			Rule: "formulas whose unit propagation runs deep (hidden assignment, 1-2 unit clauses, implication clauses that become unit one after the other, optional falsified clause), clause and literal order shuffled, units sometimes written with a repeated literal; n in 2..12; truth-table oracle; non-trivial = >=3 facts derived at parse time, or the general rule",
 		},
 		vf.Sub[Case]{
